@@ -400,20 +400,22 @@ class MembersType(Type):
         presence_bits = 0
         addition_encoders = []
 
-        try:
-            for addition in self.additions:
-                presence_bits <<= 1
-                addition_encoder = Encoder()
-                self.encode_member(addition,
-                                   data,
-                                   addition_encoder,
-                                   encode_default=True)
+        for addition in self.additions:
+            presence_bits <<= 1
 
-                if addition_encoder.number_of_bits > 0 or addition.name in data:
-                    addition_encoders.append(addition_encoder)
-                    presence_bits |= 1
-        except EncodeError:
-            pass
+            # An addition that is not part of the value is absent, as
+            # in a value of an older version. Errors in additions that
+            # are given are not hidden.
+            if addition.name not in data:
+                continue
+
+            addition_encoder = Encoder()
+            self.encode_member(addition,
+                               data,
+                               addition_encoder,
+                               encode_default=True)
+            addition_encoders.append(addition_encoder)
+            presence_bits |= 1
 
         # Return false if no extension additions are present.
         if not addition_encoders:
